@@ -58,6 +58,7 @@ type ctl struct {
 	injected  int
 	drift     string
 	scriptAt  int
+	mounts    int       // cross-repository mount requests seen so far
 	slowUntil time.Time // after an injected fault the client sleeps in a back-off: settle more patiently
 }
 
@@ -107,6 +108,9 @@ func (c *ctl) faultReply(p *pend, k string) *simreg.Reply {
 // have: the DELETE of an upload session answered 202 Accepted (simreg: 204), the status regclient's
 // blobUploadCancel takes for success.  The session is removed from the host state all the same.
 func (c *ctl) override(p *pend) *simreg.Reply {
+	if p.class == "mount_post" {
+		return c.mountPolicy(p)
+	}
 	if c.sc.Cancel202 == 0 || p.rq.Class != "upload_delete" {
 		return nil
 	}
@@ -124,6 +128,33 @@ func (c *ctl) override(p *pend) *simreg.Reply {
 		return nil
 	}
 	return &simreg.Reply{Status: 202}
+}
+
+// mountPolicy makes the registry's answer to a cross-repository mount a per-request decision (simreg's
+// Features.Mount is one flag): a declined mount is answered the way registries do, 202 with a fresh upload
+// session, which is created in the host state so that the client's cancel finds it.  c.mu held.
+func (c *ctl) mountPolicy(p *pend) *simreg.Reply {
+	c.mounts++
+	decline := false
+	for _, k := range c.sc.MountDeclK {
+		decline = decline || k == c.mounts
+	}
+	for _, n := range c.sc.MountDeclN {
+		decline = decline || n == p.n
+	}
+	h := c.w.net.Host(p.rq.Host)
+	if !decline || h == nil {
+		return nil
+	}
+	id := fmt.Sprintf("decl%04d", c.mounts)
+	h.Lock()
+	h.Uploads[id] = &simreg.Upload{Repo: p.rq.Repo, ID: id, Data: []byte{}}
+	h.Unlock()
+	hdr := http.Header{}
+	hdr.Set("Location", "/v2/"+p.rq.Repo+"/blobs/uploads/"+id+"?state=0")
+	hdr.Set("Range", "0-0")
+	hdr.Set("Docker-Upload-UUID", id)
+	return &simreg.Reply{Status: 202, Header: hdr}
 }
 
 // decide is called (with c.mu held) when p is about to be served: positional faults, cancel and
